@@ -32,4 +32,18 @@ structure TEnv where
 def cprLocationArr (lat lon : Nat × Nat) (cprForm : Nat) (coeff : Int) : Option (Rat × Rat) :=
   cprLocation lat.1 lat.2 lon.1 lon.2 cprForm coeff
 
+/-- `m.entry(k).and_modify(f).or_insert(v)` on a `HashMap<u32, V>` kept as an association list (insertion order; the
+    order of a `HashMap` is never observed: `print` sorts by key first) -/
+def hmUpsert {α : Type} (m : List (Nat × α)) (k : Nat) (f : α → α) (v : α) : List (Nat × α) :=
+  if m.any (fun kp => kp.1 == k) then m.map (fun kp => if kp.1 == k then (kp.1, f kp.2) else kp)
+  else m ++ [(k, v)]
+
+/-- `*m.entry(k).or_insert(v) = f(..)` on a `BTreeMap<u32, V>` kept as a list sorted by key -/
+def btUpsert {α : Type} : List (Nat × α) → Nat → (α → α) → α → List (Nat × α)
+  | [], k, f, v => [(k, f v)]
+  | (k', c) :: rest, k, f, v =>
+    if k < k' then (k, f v) :: (k', c) :: rest
+    else if k = k' then (k', f c) :: rest
+    else (k', c) :: btUpsert rest k f v
+
 end Sq
